@@ -112,7 +112,7 @@ func init() {
 		"C07": "pending: rules not built yet", "C09": "pending: rules not built yet",
 		"C12": "pending: rules not built yet",
 		"C15": "pending: rules not built yet",
-		"C18": "pending: rules not built yet", "C19": "pending: rules not built yet",
+		"C19": "pending: rules not built yet",
 		"C17": "input/output relation of three in-place slice loops (element values and append aliasing); no structural clause that is a necessary condition and not a frozen source fragment; the sorted-input precondition at the call sites is checked under C04",
 	} {
 		notApplicable[id] = why
